@@ -12,6 +12,7 @@ import (
 	"go/constant"
 	"go/token"
 	"go/types"
+	"reflect"
 	"regexp"
 	"strconv"
 	"strings"
@@ -476,11 +477,13 @@ func typeTableGrounds(pk *packages.Package) []Ground {
 			declM(goCamel(m.GetName())+"_", m)
 		}
 		out = append(out, enumTableGrounds(pk, fd)...)
+		out = append(out, structTagGrounds(pk, fd)...)
 		base := rawDescBase[pk.PkgPath+"\x00"+fd.GetName()]
 		if base == "" {
 			base = "file_" + nonAlnum.ReplaceAllString(fd.GetName(), "_")
 		}
 		name := shortPkg(pk.PkgPath) + "/" + fd.GetName() + "/type-table"
+		out = append(out, rawDescGrounds(pk, fd, base)...)
 		var lit *ast.CompositeLit
 		for _, f := range pk.Syntax {
 			for _, d := range f.Decls {
@@ -1016,6 +1019,185 @@ func enumTableGrounds(pk *packages.Package, fd *descriptorpb.FileDescriptorProto
 	}
 	for _, m := range fd.MessageType {
 		walk(goCamel(m.GetName())+"_", m)
+	}
+	return out
+}
+
+// rawDescGrounds (C19): the legacy Descriptor() / EnumDescriptor() methods hand out file_*_rawDescGZIP(): the gzip of the
+// embedded descriptor.  The helper must compress file_*_rawDescData, a second reference to the descriptor bytes taken
+// at variable initialisation (file_*_init sets file_*_rawDesc itself to nil once the types are built).
+func rawDescGrounds(pk *packages.Package, fd *descriptorpb.FileDescriptorProto, base string) []Ground {
+	name := shortPkg(pk.PkgPath) + "/" + fd.GetName() + "/legacy-descriptor-bytes"
+	var fn *ast.FuncDecl
+	dataInit := ""
+	for _, f := range pk.Syntax {
+		for _, d := range f.Decls {
+			switch x := d.(type) {
+			case *ast.FuncDecl:
+				if x.Recv == nil && x.Name.Name == base+"_rawDescGZIP" {
+					fn = x
+				}
+			case *ast.GenDecl:
+				for _, sp := range x.Specs {
+					if vs, ok := sp.(*ast.ValueSpec); ok {
+						for i, id := range vs.Names {
+							if id.Name == base+"_rawDescData" && i < len(vs.Values) {
+								dataInit = types.ExprString(vs.Values[i])
+							}
+						}
+					}
+				}
+			}
+		}
+	}
+	if fn == nil {
+		return nil
+	}
+	g := Ground{Name: name, Text: base + "_rawDescGZIP compresses " + base + "_rawDescData, which is initialised with " + base + "_rawDesc, stores the result there and returns it"}
+	compressed, stored, returned := "", "", ""
+	ast.Inspect(fn.Body, func(n ast.Node) bool {
+		switch x := n.(type) {
+		case *ast.AssignStmt:
+			if len(x.Lhs) == 1 && len(x.Rhs) == 1 {
+				if call, ok := x.Rhs[0].(*ast.CallExpr); ok && strings.HasSuffix(types.ExprString(call.Fun), "CompressGZIP") && len(call.Args) == 1 {
+					compressed, stored = types.ExprString(call.Args[0]), types.ExprString(x.Lhs[0])
+				}
+			}
+		case *ast.ReturnStmt:
+			if len(x.Results) == 1 {
+				returned = types.ExprString(x.Results[0])
+			}
+		}
+		return true
+	})
+	want := base + "_rawDescData"
+	g.OK = dataInit == base+"_rawDesc" && compressed == want && stored == want && returned == want
+	g.Detail = fmt.Sprintf("rawDescData = %s; compresses %s into %s; returns %s", dataInit, compressed, stored, returned)
+	return []Ground{g}
+}
+
+// structTagGrounds (C19): protobuf-go's own MessageInfo (the type the registry holds, the one Reset stores and the slow
+// path uses) reads the schema of a generated struct from its field tags.  For every message: each declared field that
+// is not a oneof member has a struct field tagged with its wire kind, number, label and proto name (maps: also the
+// kinds of key and value), and the set of protobuf_oneof tags is the set of the message's oneof names.
+func structTagGrounds(pk *packages.Package, fd *descriptorpb.FileDescriptorProto) []Ground {
+	var out []Ground
+	structs := map[string]*ast.StructType{}
+	for _, f := range pk.Syntax {
+		for _, d := range f.Decls {
+			if gd, ok := d.(*ast.GenDecl); ok {
+				for _, sp := range gd.Specs {
+					if ts, ok := sp.(*ast.TypeSpec); ok {
+						if st, ok := ts.Type.(*ast.StructType); ok {
+							structs[ts.Name.Name] = st
+						}
+					}
+				}
+			}
+		}
+	}
+	wire := func(t descriptorpb.FieldDescriptorProto_Type) string {
+		switch t {
+		case descriptorpb.FieldDescriptorProto_TYPE_SINT32:
+			return "zigzag32"
+		case descriptorpb.FieldDescriptorProto_TYPE_SINT64:
+			return "zigzag64"
+		case descriptorpb.FieldDescriptorProto_TYPE_FIXED32, descriptorpb.FieldDescriptorProto_TYPE_SFIXED32, descriptorpb.FieldDescriptorProto_TYPE_FLOAT:
+			return "fixed32"
+		case descriptorpb.FieldDescriptorProto_TYPE_FIXED64, descriptorpb.FieldDescriptorProto_TYPE_SFIXED64, descriptorpb.FieldDescriptorProto_TYPE_DOUBLE:
+			return "fixed64"
+		case descriptorpb.FieldDescriptorProto_TYPE_STRING, descriptorpb.FieldDescriptorProto_TYPE_BYTES, descriptorpb.FieldDescriptorProto_TYPE_MESSAGE:
+			return "bytes"
+		case descriptorpb.FieldDescriptorProto_TYPE_GROUP:
+			return "group"
+		}
+		return "varint"
+	}
+	var walk func(goName string, m *descriptorpb.DescriptorProto)
+	walk = func(goName string, m *descriptorpb.DescriptorProto) {
+		entries := map[string]*descriptorpb.DescriptorProto{}
+		for _, n := range m.NestedType {
+			if n.GetOptions().GetMapEntry() {
+				entries[n.GetName()] = n
+			} else {
+				walk(goName+"_"+goCamel(n.GetName()), n)
+			}
+		}
+		name := shortPkg(pk.PkgPath) + "/" + fd.GetName() + "/struct-tags/" + goName
+		st := structs[goName]
+		if st == nil {
+			out = append(out, Ground{Name: name, OK: false, Text: "the message has a generated struct"})
+			return
+		}
+		byNum := map[string]reflect.StructTag{}
+		oneofTags := map[string]bool{}
+		for _, f := range st.Fields.List {
+			if f.Tag == nil {
+				continue
+			}
+			tv, err := strconv.Unquote(f.Tag.Value)
+			if err != nil {
+				continue
+			}
+			tag := reflect.StructTag(tv)
+			if o, ok := tag.Lookup("protobuf_oneof"); ok {
+				oneofTags[o] = true
+			}
+			if p, ok := tag.Lookup("protobuf"); ok {
+				if parts := strings.Split(p, ","); len(parts) >= 2 {
+					byNum[parts[1]] = tag
+				}
+			}
+		}
+		ok, detail := true, ""
+		bad := func(format string, a ...interface{}) {
+			if ok {
+				ok, detail = false, fmt.Sprintf(format, a...)
+			}
+		}
+		wantOneofs := map[string]bool{}
+		for _, f := range m.Field {
+			if f.OneofIndex != nil && !f.GetProto3Optional() {
+				wantOneofs[m.OneofDecl[f.GetOneofIndex()].GetName()] = true
+				continue
+			}
+			tag, found := byNum[fmt.Sprint(f.GetNumber())]
+			if !found {
+				bad("no struct field tagged with number %d (%s)", f.GetNumber(), f.GetName())
+				continue
+			}
+			parts := strings.Split(tag.Get("protobuf"), ",")
+			label := "opt"
+			if f.GetLabel() == descriptorpb.FieldDescriptorProto_LABEL_REPEATED {
+				label = "rep"
+			} else if f.GetLabel() == descriptorpb.FieldDescriptorProto_LABEL_REQUIRED {
+				label = "req"
+			}
+			hasName := false
+			for _, p := range parts {
+				if p == "name="+f.GetName() {
+					hasName = true
+				}
+			}
+			if len(parts) < 3 || parts[0] != wire(f.GetType()) || parts[2] != label || !hasName {
+				bad("field %s: tag %q, schema says %s,%d,%s,name=%s", f.GetName(), tag.Get("protobuf"), wire(f.GetType()), f.GetNumber(), label, f.GetName())
+			}
+			if e := entries[f.GetTypeName()[strings.LastIndex(f.GetTypeName(), ".")+1:]]; e != nil && f.GetType() == descriptorpb.FieldDescriptorProto_TYPE_MESSAGE && strings.HasSuffix(f.GetTypeName(), "."+m.GetName()+"."+e.GetName()) {
+				for i, key := range []string{"protobuf_key", "protobuf_val"} {
+					kp := strings.Split(tag.Get(key), ",")
+					if len(kp) < 2 || kp[0] != wire(e.Field[i].GetType()) || kp[1] != fmt.Sprint(i+1) {
+						bad("map field %s: %s %q, schema says %s,%d", f.GetName(), key, tag.Get(key), wire(e.Field[i].GetType()), i+1)
+					}
+				}
+			}
+		}
+		if fmt.Sprint(oneofTags) != fmt.Sprint(wantOneofs) {
+			bad("protobuf_oneof tags %v, oneofs of the schema %v", oneofTags, wantOneofs)
+		}
+		out = append(out, Ground{Name: name, OK: ok, Text: "the struct tags of " + goName + " carry the schema of the message (wire kind, number, label, proto name per field; key and value kinds of maps; oneof names)", Detail: detail})
+	}
+	for _, m := range fd.MessageType {
+		walk(goCamel(m.GetName()), m)
 	}
 	return out
 }
